@@ -293,6 +293,11 @@ class Model:
             cur = self.getvar(name)
             if cur is None:
                 cur = 0
+            if "onmatch" in q and not getattr(self, "rest_ok", True):
+                self.numarg(a[0], f)  # the operand is validated whether or not the line matches
+                if self.getvar(name) is None:
+                    self.setvar(name, 0)
+                return cur
             v = self.numarg(a[0], f)
             cur = cur + float(v)
             self.setvar(name, cur)
@@ -315,6 +320,8 @@ class Model:
             cur = self.getvar(name)
             if cur is None:
                 cur = 0
+            if "onmatch" in q and not getattr(self, "rest_ok", True):
+                return None
             inc = 1 if not a else self.val(a[0])
             cur += inc
             self.setvar(name, cur)
@@ -673,8 +680,15 @@ class Model:
             return v
         return self.vote(c)
 
+    def nested_onmatch(self, c):
+        """an assignment (itself unqualified) whose value is an onmatch-qualified aggregate: the assignment always
+        happens, the aggregate only takes in the line when the rest of the line matches"""
+        return c[0] == "assign" and "onmatch" not in c[3] and c[4][0] == "fn" and c[4][1] in ("sum", "counter") and "onmatch" in c[4][3]
+
     def has_onmatch(self, c):
         if c[0] == "assign":
+            if self.nested_onmatch(c):
+                return True
             return "onmatch" in c[3] or (c[4][0] == "fn" and c[4][1] == "count" and not c[4][2])
         if c[0] == "print":
             return "onmatch" in c[2]
@@ -754,7 +768,7 @@ class Model:
                 interrupted = True
                 break
             if om[idx]:
-                if c[0] == "assign":
+                if c[0] == "assign" and not self.nested_onmatch(c):
                     self.val(c[4])  # may raise Unspec / ExpErr: the value is computed whether or not the line matches
                 continue
             try:
@@ -803,6 +817,12 @@ class Model:
         if any(om):
             if not self.AND:
                 raise Unspec("onmatch in OR mode")
+            self.rest_ok = rest
+            if not rest:
+                for idx, c in enumerate(comps):
+                    if om[idx] and self.nested_onmatch(c):
+                        self.comp_vote(c)
+                        self.ran.append(idx)
             if rest:
                 # onmatch components take effect only when the rest of the line matches
                 order = [idx for idx in range(len(comps)) if om[idx]]
